@@ -40,7 +40,7 @@ def source(enum, variants, rule, tag, content, flavour="plain", spelling="merged
     body = ""
     for ident, ren, kind in variants:
         if ren:
-            body += f'    #[serde(rename = "{ren}")]\n'
+            body += '    #[serde(rename = "%s")]\n' % ren.replace("\\", "\\\\").replace('"', '\\"')
         if kind == "unit":
             body += f"    {ident},\n"
         elif kind == "newtype":
@@ -51,8 +51,11 @@ def source(enum, variants, rule, tag, content, flavour="plain", spelling="merged
     return f"#[typeshare]\n" + "".join(a + "\n" for a in attrs) + f"pub enum {name}{gen} {{\n{body}}}\n"
 
 
+RENAME_TEXT = {"$a_quote_b": '$a"b'}          # constants of MC_C02!RenameOf whose name is not the text itself
+
+
 def case_variants(c):
-    vs = [(c["ident"], None if c["rename"] == "none" else c["rename"], c["kind"]), ("Other", None, "unit")]
+    vs = [(c["ident"], None if c["rename"] == "none" else RENAME_TEXT.get(c["rename"], c["rename"]), c["kind"]), ("Other", None, "unit")]
     if c["enum"] == "tagged":
         vs.append(("Last", None, "newtype"))
         if c["flavour"].startswith("recursive"):
